@@ -134,8 +134,12 @@ def _image_frame(st, idx, anchor="as-char", extra_attrs=""):
     href = {"relative": name, "dot": "./" + name}[form] if not img.get("external") else img["external"]
     w, h = img.get("disp_w") or f"{img.get('w', 10) / 96 * 2.54:.4f}cm", img.get("disp_h") or f"{img.get('h', 10) / 96 * 2.54:.4f}cm"
     title = f"<svg:title>{escape(img['alt'])}</svg:title>" if img.get("alt") else ""
-    return (f'<draw:frame draw:style-name="fr1" draw:name="Image{idx + 1}" text:anchor-type="{anchor}" svg:width="{w}" svg:height="{h}" draw:z-index="0"{extra_attrs}>'
-            f'<draw:image xlink:href={quoteattr(href)} xlink:type="simple" xlink:show="embed" xlink:actuate="onLoad"/>{title}</draw:frame>')
+    frame = (f'<draw:frame draw:style-name="fr1" draw:name="Image{idx + 1}" text:anchor-type="{anchor}" svg:width="{w}" svg:height="{h}" draw:z-index="0"{extra_attrs}>'
+             f'<draw:image xlink:href={quoteattr(href)} xlink:type="simple" xlink:show="embed" xlink:actuate="onLoad"/>{title}</draw:frame>')
+    if st.opts.get("ghost_frame") and idx % 2 == 0:
+        # a frame whose picture part is missing from the package (a broken link left behind by an editor) precedes the real one: it places no image and uses up no number
+        frame = frame.replace(quoteattr(href), quoteattr(f"Pictures/missing{idx + 1}.{img['ext']}"), 1).replace(f'draw:name="Image{idx + 1}"', f'draw:name="Ghost{idx + 1}"', 1) + frame
+    return frame
 
 
 def _t_blocks(blocks, st):
